@@ -987,7 +987,7 @@ def explore(ctx):
     neg = [['external_set', 'obs_scale', 'xneg'], ['external_set', 'T', 'xneg'], ['set_factor_boundary', 'obs_scale', 'f1'],
            ['set_factor_boundary', 'T', 'f1'], ['enable_fit', 'obs_scale'], ['enable_fit', 'T'], ['compile_params'],
            ['external_set', 'obs_scale', 'x1']]
-    run_phase(ctx, 'negative', neg, 4 if quick else 5)
+    run_phase(ctx, 'negative', neg, 4)
     if quick:
         # four parameters (default-fit linear, linear, log, observation-side) and all three derived
         # parameters, every operation, depth 3
